@@ -522,6 +522,22 @@ plan and forgot it here). -/
 theorem specialise_keeps_regime (p : Plan) (vars : Vars) :
     (p.specialise vars).isMutation = p.isMutation ∧ (p.specialise vars).rootType = p.rootType := ⟨rfl, rfl⟩
 
+/-- **planQuery_keeps_all_fragments.** The plan carries the document's WHOLE fragment table — what `ResolveInfo.Fragments` hands to
+every resolver, type resolver and `IsTypeOf` (C20) — not the part of it the selected operation reaches (seed C20-14 pruned it), and
+specialisation keeps it. -/
+theorem planQuery_keeps_all_fragments (s : Schema) (doc : Document) (opName : String) (p : Plan)
+    (hp : planQuery s doc opName = .ok p) (vars : Vars) :
+    p.frags = doc.fragments ∧ (p.specialise vars).frags = doc.fragments := by
+  unfold planQuery at hp
+  split at hp
+  · cases hp
+  · split at hp
+    · cases hp
+    · simp only [Except.ok.injEq] at hp
+      rw [← hp]
+      exact ⟨rfl, rfl⟩
+  · cases hp
+
 /-! ## Non-vacuity -/
 
 open Ex GqlModel.Exec.Ex in
